@@ -26,6 +26,17 @@ def run(pid, tier, seed):
                                         args=["-dump", "dot,actionlabels", dot]), "MC_Deadline")
     rep.add_tlc(r)
     rep.exhaustive = True
+    # unbounded complement (a note, never a verdict): Apalache discharges the inductive invariant that implies the
+    # three C09 invariants with no bound on clock, Set times, Set calls, callbacks in flight or history length, and
+    # refutes it for a Run that lets a stale callback signal Done
+    step = ["--init=IndInit", "--next=IndNext", "--inv=IndInv", "--length=1"]
+    ind = {"base": vlib.run_apalache("deadline", "DeadlineInd", ["--init=DInit", "--next=IndNext", "--inv=IndInv", "--length=0"]),
+           "step": vlib.run_apalache("deadline", "DeadlineInd", step),
+           "implies_C09": vlib.run_apalache("deadline", "DeadlineInd", ["--init=IndInit", "--next=IndNext", "--inv=C09", "--length=0"]),
+           "step_stale_callback_signals": vlib.run_apalache("deadline", "DeadlineInd", ["--init=IndInit", "--next=BadNext", "--inv=IndInv", "--length=1"])}
+    rep.extra["apalache_inductive_invariant_Deadline"] = ind
+    rep.notes.append("Apalache, DeadlineInd.IndInv: base %(base)s, inductive step %(step)s, IndInv => C09 %(implies_C09)s, "
+                     "step with a stale callback that signals %(step_stale_callback_signals)s (expected: ok, ok, ok, error)" % ind)
     inits, adj, n_edges = vlib.load_graph(dot)
     ts, covered, total = vlib.tours(inits, adj, max_len=24, rng=rng)
     scen = os.path.join(d, "scen.ndjson")
